@@ -321,6 +321,40 @@ pub fn check_run(run: &Run, shared: Option<(&BuiltScen, &URef)>) -> C04Result {
         log: 0,
     };
     if !u.usable {
+        // the unscoped run itself is off the position line (C02's business), so nothing
+        // can be compared with it — but the statement also *defines* the positions
+        // (deck order: ace to deuce, spade heart diamond club), so a scoped worker must
+        // still only yield boards that lie inside its own [from, to), in position order
+        let mut all = vec![built.clone()];
+        for sc in run.scens.iter().skip(1) {
+            all.push(BuiltScen { scen: sc.clone(), ranges: Arc::new(sc.build_ranges()) });
+        }
+        let mut w = World::with_built(all, &run.specs, run.execs);
+        w.drain_cap = 64 + 8 * built.scen.product().max(1) * (NPOS as u64 + 2);
+        w.run_all(&run.steps);
+        w.finish_all();
+        res.next_calls = w.next_calls;
+        for (ti, t) in w.tasks.iter().enumerate() {
+            let (from, to) = (t.spec.from(), t.spec.to());
+            let mut prev: Option<Pos> = None;
+            for o in t.effective() {
+                if let Out::Yield { t: a, r: b, .. } = o {
+                    let p = (a, b);
+                    if !is_board_pos(p) || p < from || p >= to {
+                        res.key = Some((
+                            "outside_scope".into(),
+                            format!("task {ti}: scope {}..{}: a board at {} (positions as the statement defines them: unseen cards ace to deuce, spade heart diamond club); the unscoped run is unusable as a reference ({})", pos_str(from), pos_str(to), pos_str(p), u.why),
+                        ));
+                        return res;
+                    }
+                    if prev.map(|q| p < q).unwrap_or(false) {
+                        res.key = Some(("position_order".into(), format!("task {ti}: scope {}..{}: a board at {} after one at {}", pos_str(from), pos_str(to), pos_str(p), pos_str(prev.unwrap()))));
+                        return res;
+                    }
+                    prev = Some(p);
+                }
+            }
+        }
         res.skipped = Some(u.why.clone());
         return res;
     }
